@@ -73,17 +73,17 @@ func c19CheckSegPt(c c19SegPt) fw.Outcome {
 		return fw.Failf(label, "Segment%v.Raycast(%v).In = %v, exact half-open crossing %v (scale 2^%d)", c.S, c.P, res.In, wantIn, c.Scale)
 	}
 	if got := seg.ContainsPoint(p); got != wantOn {
-		return fw.Failf(label, "Segment%v.ContainsPoint(%v) = %v, exact %v", c.S, c.P, got, wantOn)
+		return fw.Failf(label, "Segment%v.ContainsPoint(%v) = %v, exact %v (scale 2^%d)", c.S, c.P, got, wantOn, c.Scale)
 	}
 	wantCol := exact.Orient(a, b, c.P) == 0
 	if got := seg.CollinearPoint(p); got != wantCol {
-		return fw.Failf(label, "Segment%v.CollinearPoint(%v) = %v, exact %v", c.S, c.P, got, wantCol)
+		return fw.Failf(label, "Segment%v.CollinearPoint(%v) = %v, exact %v (scale 2^%d)", c.S, c.P, got, wantCol, c.Scale)
 	}
 	r := seg.Rect()
 	wr := geometry.Rect{Min: geometry.Point{X: adapt.F(min(a.X, b.X), c.Scale), Y: adapt.F(min(a.Y, b.Y), c.Scale)},
 		Max: geometry.Point{X: adapt.F(max(a.X, b.X), c.Scale), Y: adapt.F(max(a.Y, b.Y), c.Scale)}}
 	if r != wr {
-		return fw.Failf(label, "Segment%v.Rect() = %v, exact %v", c.S, r, wr)
+		return fw.Failf(label, "Segment%v.Rect() = %v, exact %v (scale 2^%d)", c.S, r, wr, c.Scale)
 	}
 	return fw.OK(label, nt)
 }
